@@ -88,6 +88,13 @@ type ClientInfo struct {
 	// Delivered: for each lookup (keyed by remote path) the bytes last handed to this client,
 	// from the network or from the cache.
 	Delivered map[string][]byte
+	// LatestReads: every content of name/latest this client has read, with the scheduler step of the read.
+	LatestReads []ConfigRead
+	// LookupStart: the scheduler step at which the Lookup now running in a goroutine (keyed by the
+	// goroutine's slot) was called.
+	LookupStart map[int]int
+	// CurrentTask: the goroutine slot whose Lookup just returned (valid inside the afterLookup callback).
+	CurrentTask int
 	// FirstConfig is the first content of name/latest this client read.
 	FirstConfig    []byte
 	HasFirstConfig bool
@@ -95,6 +102,12 @@ type ClientInfo struct {
 	ForgedLeaf map[int64]ref.Hash
 	// ForgedUni: a self-consistent forged log whose tiles the network serves to this client.
 	ForgedUni *Universe
+}
+
+// ConfigRead is one read of the stored latest head.
+type ConfigRead struct {
+	Step int
+	Data []byte
 }
 
 // World is the environment of one simulated run.
@@ -359,6 +372,9 @@ func (o *ops) ReadConfig(file string) ([]byte, error) {
 		return nil, os.ErrNotExist
 	}
 	w.noteSeen(c.Machine, data)
+	if file == ServerName+"/latest" {
+		c.LatestReads = append(c.LatestReads, ConfigRead{Step: w.StepFn(), Data: append([]byte(nil), data...)})
+	}
 	if file == ServerName+"/latest" && !c.HasFirstConfig {
 		c.HasFirstConfig = true
 		c.FirstConfig = append([]byte(nil), data...)
